@@ -8,6 +8,7 @@ LEAN = os.path.join(VERIF, 'lean')
 HARNESS = os.path.join(VERIF, 'harness')
 WORK = os.path.join(VERIF, 'work')
 DRIVER = os.path.join(LEAN, '.lake', 'build', 'bin', 'fmdriver')
+FMPARSE = os.path.join(LEAN, '.lake', 'build', 'bin', 'fmparse')
 HBIN = os.path.join(HARNESS, 'target', 'release', 'fvharness')
 NSHARDS = int(os.environ.get('VERIF_SHARDS', '16'))
 ENV = dict(os.environ, CARGO_NET_OFFLINE='true')
@@ -145,6 +146,9 @@ def audit(prop, module=None):
 
 def run_shard(args):
     cmd, shard, outdir, need_driver = args
+    driver = DRIVER
+    if need_driver == 'parse':
+        driver = FMPARSE
     d = os.path.join(outdir, 's%d' % shard)
     os.makedirs(d, exist_ok=True)
     full = [HBIN] + cmd + ['--shard', '%d/%d' % (shard, NSHARDS), '--out', d]
@@ -157,7 +161,12 @@ def run_shard(args):
         return d, 'harness process died (exit status %s)%s %s' % (r.returncode, extra, r.stdout[-1500:])
     if need_driver:
         with open(os.path.join(d, 'req.txt')) as fin, open(os.path.join(d, 'model.txt'), 'w') as fout:
-            r2 = subprocess.run([DRIVER], stdin=fin, stdout=fout, stderr=subprocess.PIPE, text=True)
+            if driver == FMPARSE:
+                # the parser model recurses on the native stack: give it room for the deep-nesting probes
+                r2 = subprocess.run('ulimit -s unlimited 2>/dev/null || ulimit -s 1000000 2>/dev/null; exec "%s"' % driver,
+                                    shell=True, stdin=fin, stdout=fout, stderr=subprocess.PIPE, text=True)
+            else:
+                r2 = subprocess.run([driver], stdin=fin, stdout=fout, stderr=subprocess.PIPE, text=True)
         if r2.returncode != 0:
             return d, 'driver failed: ' + r2.stderr[-2000:]
     return d, None
